@@ -68,8 +68,8 @@ import (
 	"time"
 
 	"github.com/osrg/gobgp/v4/api"
-	"github.com/osrg/gobgp/v4/internal/pkg/verifgen"
 	"github.com/osrg/gobgp/v4/internal/pkg/table"
+	"github.com/osrg/gobgp/v4/internal/pkg/verifgen"
 	"github.com/osrg/gobgp/v4/internal/pkg/verifkit"
 	"github.com/osrg/gobgp/v4/pkg/apiutil"
 	"github.com/osrg/gobgp/v4/pkg/config/oc"
